@@ -813,7 +813,10 @@ def special_inputs(ctx):
             runs.append((fmt, "truncated-gzip", FMT_FLAG[fmt] + ["--ojson", "--gzin", "cat", str(d / "trunc.z")]))
 
         def go(r):
-            st, out, err = run_cli(ctx, r[2], b"", timeout=8, max_out=30_000_000)
+            st, out, err = mlr_run(ctx, r[2], b"", timeout=8, max_out=30_000_000, env=SAFE_ENV, cwd=SANDBOX["dir"])
+            if st == "hang":
+                # a loaded host can take longer than that to start a process: only a run that is still going after a LONG time is a hang
+                st, out, err = mlr_run(ctx, r[2], b"", timeout=120, max_out=30_000_000, env=SAFE_ENV, cwd=SANDBOX["dir"])
             return r, c18_classify(st, err), st, len(out), err
         with ctx.timed("special_inputs"):
             with cf.ThreadPoolExecutor(min(8, NJOBS)) as ex:
